@@ -27,11 +27,16 @@ def make_case(rng, idx):
     for lang in LANGS:
         if rng.random() < 0.4:
             over[lang] = {"max_methods": max(1, M + rng.choice([-2, 2, 3])), "max_loc": max(5, L + rng.choice([-6, 5, 10]))}
+            r = rng.random()
+            if r < 0.25:
+                del over[lang]["max_loc"]      # partial override: the other threshold falls back to the top-level value
+            elif r < 0.5:
+                del over[lang]["max_methods"]
     check_kw = rng.random() < 0.7
     custom_kw = rng.random() < 0.25
     files, facts = {}, {}
     for lang in LANGS:
-        eff = over.get(lang, {"max_methods": M, "max_loc": L})
+        eff = dict({"max_methods": M, "max_loc": L}, **over.get(lang, {}))
         text, fx = classes.gen_file(rng, lang, idx, eff["max_methods"], eff["max_loc"], rng.randint(1, 4))
         f = "pkg/cls%d%s" % (idx, ctrl.EXT[lang])
         files[f] = text
@@ -94,7 +99,7 @@ def run(ctx):
         kws = case["keywords"] or classes.KEYWORDS
         for f, fx in case["facts"].items():
             lang = f.rsplit(".", 1)[1]
-            eff = case["over"].get(lang, {"max_methods": case["M"], "max_loc": case["L"]})
+            eff = dict({"max_methods": case["M"], "max_loc": case["L"]}, **case["over"].get(lang, {}))
             rows = [r for r in v["rows"] if r[0] == f]
             by_name = {}
             for r in rows:
